@@ -4,7 +4,6 @@ PENDING.update({
  "C10": "check not built yet in this round (planned: xfr simulation, DESIGN section 4)",
  "C11": "check not built yet in this round (planned: tsig simulation, DESIGN section 4)",
  "C14": "check not built yet in this round (planned: validator simulation, DESIGN section 4)",
- "C16": "check not built yet in this round (planned: server simulation, DESIGN section 4)",
 })
 claim("C15", "exploration",
       "Seeded exploration of schedules and fault scripts: the six real client transports run over a simulated network against simulated peers on a virtual clock; every response is attributed through unique names/tokens, every request must complete once within its configured budget, fault-free runs must succeed. Evidence, not proof: a clean batch means no violation among the sampled executions.",
@@ -29,3 +28,9 @@ claim("C08", "exploration",
       "Histories are sequential (no concurrency needed for this property); 'crash' = writer/updater dropped before commit. Trusted: the reference lookup and workload generator in /verif/sim; qtype ANY, non-required additional data and the negative-answer SOA TTL are not compared (RFC latitude).",
       "deterministic simulation of update/abort histories with differential rebuild and an executable RFC reference model",
       "DESIGN.md section 4, C08/C09")
+
+claim("C16", "exploration",
+      "Seeded exploration of client behaviours and schedules against the real datagram and stream servers with the mandatory/EDNS/cookies middleware over a stub service: every octet the servers write is recorded; each response must parse, be correctly framed, carry the ID, question and content of a request of that same peer/connection, appear exactly as often as the service produced it (also for multi-response transactions, in order), respect the UDP size rule (512 without EDNS; min(max(512, advertised), configured) with EDNS; TC set and OPT kept when content is dropped), while hostile senders and misbehaving connections must not panic the server or stop others from being served. Evidence, not proof; the documented discard of responses when the per-connection queue is full is reported as KNOWN-FINDING.",
+      "Losses are excused only for a connection whose own client aborted, sent a hostile frame, stalled reading beyond the write timeout (or used a tiny window against a sub-second write timeout). Trusted: tokio runtime FIFO scheduling of per-request tasks, the stub service/clients/ledger in /verif/sim. A busy-wait in the library (yield_now loop while the response queue is full inside a transaction) is bridged by the simulator's spin breaker, which advances virtual time when 1024 task polls pass without any simulation event.",
+      "deterministic simulation with fault injection (hostile and misbehaving clients, seeded pacing/segmentation/stalls/aborts), exactly-once ledger over recorded server output",
+      "DESIGN.md section 4, C16")
